@@ -41,6 +41,13 @@ func (P *Program) isSinkPkg(path string) bool {
 	return false
 }
 
+// third-party packages whose (cheap, self-contained) initialisers are run
+var initAllow = map[string]bool{
+	"k8s.io/apimachinery/pkg/api/errors": true, // knownReasons table read by IsConflict & co
+}
+
+func (P *Program) runsInit(path string) bool { return P.isRepoPkg(path) || initAllow[path] }
+
 func (P *Program) isRepoPkg(path string) bool {
 	return path == P.RepoPrefix || strings.HasPrefix(path, P.RepoPrefix+"/")
 }
@@ -87,7 +94,7 @@ func Load(dir, repoPrefix string, overlay map[string][]byte, tags string, patter
 	// globals of third-party packages that an initialiser assigns: reading one
 	// is flagged because those initialisers are not run.
 	for _, pkg := range prog.AllPackages() {
-		if P.isRepoPkg(pkg.Pkg.Path()) {
+		if P.runsInit(pkg.Pkg.Path()) {
 			continue
 		}
 		for _, m := range pkg.Members {
